@@ -782,6 +782,7 @@ func TestVerifC10(t *testing.T) {
 		}
 	}
 
+	e.EdgeSlots()
 	nCfg := vfutil.Scale(400, 8000)
 	for i := 0; i < nCfg; i++ {
 		e.RunGenerated(r, 1, 15, 25)
